@@ -49,6 +49,7 @@ type Gen struct {
 	inlineDepth int
 	inlineStack []string
 	usedStr  bool
+	usedEmul bool
 	pureDefs map[string]bool
 	covers   []string // reach terms of returns (vacuity cover)
 	kindCtr  map[string]int
@@ -1070,7 +1071,15 @@ func (g *Gen) elemAddr(base, idx string, et types.Type) *SVal {
 		return &SVal{T: pt, K: KPtr, Term: ref, Prov: &Prov{Kind: 2, Fam: elemFam(et), Base: base, Idx: idx}}
 	}
 	sz := sizes.Sizeof(et)
-	ref := sApp("bvadd", base, sApp("bvmul", idx, bv64(sz)))
+	mul := sApp("bvmul", idx, bv64(sz))
+	if sz > 1 && sz&(sz-1) != 0 {
+		// element size not a power of two: the product goes through emul, which the first proof stages
+		// leave uninterpreted (congruence is usually all a proof needs, and bit-blasting the multiplier
+		// is what makes such queries slow); the later stages define it as bvmul
+		mul = sApp("emul", idx, bv64(sz))
+		g.usedEmul = true
+	}
+	ref := sApp("bvadd", base, mul)
 	if isAggregate(et) {
 		return &SVal{T: pt, K: KPtr, Term: ref}
 	}
